@@ -7,6 +7,7 @@ package main
 // into one message, or never.
 
 import (
+	"encoding/hex"
 	"encoding/json"
 	"fmt"
 	"math/rand"
@@ -26,6 +27,7 @@ type jPub struct {
 	P string `json:"p"`
 	Q int32  `json:"q"`
 	R bool   `json:"r"`
+	D bool   `json:"d,omitempty"`
 }
 type jSess struct {
 	ID   string `json:"id"`
@@ -62,6 +64,7 @@ type crdtOp struct {
 	Ks   []int   `json:"ks,omitempty"`
 	ID   string  `json:"id,omitempty"`
 	CID  string  `json:"cid,omitempty"`
+	CIDX string  `json:"cidx,omitempty"` // client identifier as hex, for byte strings JSON cannot carry
 	MP   string  `json:"mp,omitempty"`
 	LWT  *jPub   `json:"lwt,omitempty"`
 	Pat  string  `json:"pat,omitempty"`
@@ -82,7 +85,7 @@ func init() { register("crdt", crdtFamily{}) }
 // ---- Gallina emitters
 
 func cqPub(p jPub) string {
-	return fmt.Sprintf("(Publish %s %s %s %s)", cqStr(p.T), cqStr(p.P), cqZ(int64(p.Q)), cqBool(p.R))
+	return fmt.Sprintf("(Publish %s %s %s %s %s)", cqStr(p.T), cqStr(p.P), cqZ(int64(p.Q)), cqBool(p.R), cqBool(p.D))
 }
 func cqOptPub(p *jPub) string {
 	if p == nil {
@@ -133,7 +136,7 @@ func toJPub(p *packet.Publish) *jPub {
 	}
 	j := &jPub{T: string(p.Topic), P: string(p.Payload)}
 	if p.Header != nil {
-		j.Q, j.R = p.Header.Qos, p.Header.Retain
+		j.Q, j.R, j.D = p.Header.Qos, p.Header.Retain, p.Header.Dup
 	}
 	return j
 }
@@ -141,7 +144,7 @@ func fromJPub(j *jPub) *packet.Publish {
 	if j == nil {
 		return nil
 	}
-	return &packet.Publish{Header: &packet.Header{Qos: j.Q, Retain: j.R}, Topic: []byte(j.T), Payload: []byte(j.P)}
+	return &packet.Publish{Header: &packet.Header{Qos: j.Q, Retain: j.R, Dup: j.D}, Topic: []byte(j.T), Payload: []byte(j.P)}
 }
 func toJSess(s *api.SessionMetadatas) jSess {
 	return jSess{ID: s.SessionID, CID: s.ClientID, MP: s.MountPoint, Peer: s.Peer, LWT: toJPub(s.LWT), LA: s.LastAdded, LD: s.LastDeleted}
@@ -268,8 +271,13 @@ func (crdtFamily) Exec(id int, raw json.RawMessage) Case {
 		}
 		switch o.Op {
 		case "sess_create":
-			return local(fmt.Sprintf("DSessCreate %s %s %s %s %s", cqStr(o.ID), cqStr(o.CID), cqStr(o.MP), cqOptPub(o.LWT), cqZ(o.Clk)), func() {
-				n.st.SessionMetadatas().Create(o.ID, o.CID, 0, fromJPub(o.LWT), o.MP)
+			cid := o.CID
+			if o.CIDX != "" {
+				b, _ := hex.DecodeString(o.CIDX)
+				cid = string(b)
+			}
+			return local(fmt.Sprintf("DSessCreate %s %s %s %s %s", cqStr(o.ID), cqStr(cid), cqStr(o.MP), cqOptPub(o.LWT), cqZ(o.Clk)), func() {
+				n.st.SessionMetadatas().Create(o.ID, cid, 0, fromJPub(o.LWT), o.MP)
 			})
 		case "sess_delete":
 			return local(fmt.Sprintf("DSessDelete %s %s", cqStr(o.ID), cqZ(o.Clk)), func() { n.st.SessionMetadatas().Delete(o.ID) })
@@ -513,6 +521,12 @@ func (crdtFamily) Gen(n int, seed int64, mode, tier string) []interface{} {
 			o := crdtOp{Op: "sess_create", N: node, ID: id, CID: "c" + sid, MP: []string{"mp", "mp2"}[rng.Intn(2)], Clk: clk}
 			if rng.Intn(2) == 0 {
 				o.LWT = &jPub{T: "mp/will", P: "bye", Q: int32(rng.Intn(3)), R: rng.Intn(2) == 0}
+			}
+			if rng.Intn(5) == 0 {
+				// client identifiers are client-chosen bytes: well-formed multi-byte UTF-8 and the ill-formed kinds
+				// (stray continuation, truncated, overlong, surrogate, beyond U+10FFFF) the broadcast encoder refuses
+				odd := []string{"c\xe2\x82\xac", "\xc3\xa9-id", "\xf0\x9f\x98\x80", "c\xff", "\x80x", "\xc3\x28", "ab\xe2\x82", "\xc0\xaf", "\xe0\x80\xaf", "\xed\xa0\x80", "\xf4\x90\x80\x80", "\xf0\x8f\xbf\xbf", "\xf8\x88\x80\x80\x80", "\xed\x9f\xbf", "\xee\x80\x80", "\xf4\x8f\xbf\xbf"}
+				o.CID, o.CIDX = "", hex.EncodeToString([]byte(odd[rng.Intn(len(odd))]))
 			}
 			return o
 		case r < 20:
